@@ -60,6 +60,7 @@ func checkC09(c *Ctx) {
 	p := c.P
 	// a key supplied through Model() or through the deleted value is a condition: both delete builders must pick it up,
 	// otherwise the chain is rejected although it supplied one (same rule as C02.pk-sources)
+	checkC09ScopesDrained(c)
 	checkSessionFlags(c, c.Rule("C09.session-flags", "Session copies each option onto the same-named configuration field (AllowGlobalUpdate is turned on only by a session that asks for it)", 5))
 	checkPkSources(c, c.Rule("C09.pk-sources", "both delete builders turn the key of the deleted value AND of Model() into WHERE conditions (a chain that supplies a key is not rejected)", 2))
 	execs, _ := executorSet(p)
